@@ -371,3 +371,63 @@ func VerifC11_ReportedErrorsAllListed() {
 		verifAssert("reported-errors-listed-exactly", strings.Contains(msg, "bad "+n) == fails[i])
 	}
 }
+
+// VerifC11_LateRoots2: two roots registered while the DSL executes, with an
+// arbitrary dependency relation between them: dependency order in every phase,
+// and a cycle among them is reported.
+func VerifC11_LateRoots2() {
+	Reset()
+	vLog = nil
+	c := &vRoot{name: "c", id: 1}
+	d := &vRoot{name: "d", id: 2}
+	ce, de := &vExpr{id: 10}, &vExpr{id: 20}
+	c.sets = func() []ExpressionSet { return []ExpressionSet{{ce}} }
+	d.sets = func() []ExpressionSet { return []ExpressionSet{{de}} }
+	cOnD, dOnC := nondetBool("c-depends-on-d"), nondetBool("d-depends-on-c")
+	if cOnD {
+		c.deps = []Root{d}
+	}
+	if dOnC {
+		d.deps = []Root{c}
+	}
+	dFirst := nondetBool("d-registered-first")
+	e0 := &vExpr{id: 0}
+	e0.onDSL = func() {
+		if dFirst {
+			Register(d)
+			Register(c)
+		} else {
+			Register(c)
+			Register(d)
+		}
+	}
+	r0 := &vRoot{name: "r0", id: 0}
+	r0.sets = func() []ExpressionSet { return []ExpressionSet{{e0}} }
+	Register(r0)
+	err := RunDSL()
+	if cOnD && dOnC {
+		verifAssert("late-roots:cycle-reported", err != nil)
+		return
+	}
+	verifAssert("late-roots:accepted", err == nil)
+	if err != nil {
+		return
+	}
+	first := func(phase, id int) int {
+		for i, ev := range vLog {
+			if ev.phase == phase && ev.id == id {
+				return i
+			}
+		}
+		return -1
+	}
+	for ph := phDSL; ph <= phFinalize; ph++ {
+		verifAssert("late-roots:every-phase-reaches-both", first(ph, 10) >= 0 && first(ph, 20) >= 0)
+		if cOnD {
+			verifAssert("late-roots:dependency-first", first(ph, 20) < first(ph, 10))
+		}
+		if dOnC {
+			verifAssert("late-roots:dependency-first", first(ph, 10) < first(ph, 20))
+		}
+	}
+}
